@@ -257,6 +257,15 @@ def oracle(cases, order, impl, skeleton):
                         if ssts:
                             stats["reuse_linked"] = stats.get("reuse_linked", 0) + 1
                             nontrivial.add(vlib.case_hash("\t".join(c)))
+        elif kind == "HR":
+            m = re.match(r"^rounds=(\d+) restore_differs=(\d+)$", out)
+            if not m or int(m.group(2)) != 0:
+                fails.append(dict(name="hllcache-" + cid, base=cid,
+                                  what="HyperLogLog writes held in the write cache around Backup / Restore (%s, write buffer %s KB): the content after "
+                                       "Restore differs from the content at the backup instant: %s" % (c[1], c[4], out[:200])))
+            else:
+                stats["hll_cache_rounds"] = stats.get("hll_cache_rounds", 0) + int(m.group(1))
+            nontrivial.add(vlib.case_hash("\t".join(c)))
         elif kind == "RS":
             stats["two_source_scenarios"] = stats.get("two_source_scenarios", 0) + 1
             if out != "fromA=ok/ok:A repeatA=ok/ok:A fromB=ok/ok:B":
@@ -629,7 +638,7 @@ def run(ctx):
     if quick:
         args = "-seed %d -ndir 500 -nplan 200 -ntrace 2 -tracelen 50 -nfetch 0 -ninter 40 -ncrash 1 -engines pebble,rocksdb,mem -k1 none" % ctx.seed
     else:
-        args = "-seed %d -ndir 15000 -nplan 3000 -ntrace 30 -tracelen 80 -nfetch 6 -ninter 600 -ncrash 25 -junk 100000 -exh -engines pebble,rocksdb,mem -k1 pebble,rocksdb,mem -k1mb 48" % ctx.seed
+        args = "-seed %d -ndir 15000 -nplan 3000 -ntrace 30 -tracelen 80 -nfetch 6 -ninter 600 -nhll 120 -ncrash 25 -junk 100000 -exh -engines pebble,rocksdb,mem -k1 pebble,rocksdb,mem -k1mb 48" % ctx.seed
     runs = []
     corpus = sorted(glob.glob(os.path.join(vlib.VERIF, "corpus", "C14", "*.tsv")))
     if ctx.replay:
@@ -688,7 +697,7 @@ def run(ctx):
             byk = {}
             for cid in order:
                 byk.setdefault(cases[cid][0], cid)
-            for kd in ("P", "F", "TO", "L", "G", "H", "E", "I", "RS", "MS", "FF", "CB", "CR", "CRR", "CF", "K"):
+            for kd in ("P", "F", "TO", "L", "G", "H", "E", "I", "HR", "RS", "MS", "FF", "CB", "CR", "CRR", "CF", "K"):
                 if kd in byk:
                     cid = byk[kd]
                     samples.append(dict(case=[x[:160] for x in cases[cid]], impl=(impl.get(cid) or "")[:300]))
@@ -720,6 +729,8 @@ def run(ctx):
              "G: node.GetValidBackupInfo against one HTTP stub per peer (same host / other host, own data root, refusing, unreachable; the stub rejects "
              "any request that is not the checkbackup of exactly the requested snapshot); H: node.handleReuseOldCheckpoint on crafted backup directories "
              "(source_node_info per checkpoint, shared hard links, the new directory present or not, from the same or another source); "
+             "HR: PFADDs on 1-45 distinct keys (the dirty cache holds 32) still only in the write cache right before Backup and right before Restore, on a store "
+             "with a 16 KB write buffer and on a default one; the T histories carry such bursts too; "
              "RS: two source stores with a checkpoint of the same (term,index) and different content, ProposeOp_TransferRemoteSnap + ProposeOp_ApplyRemoteSnap "
              "(real custom raft requests through ApplyRaftRequest) from one, repeated after its checkpoint is gone, then from the other; "
              "MS: checkpoint size classes just below / above 1 MiB and a few MiB with values of 60-260 KB; CRR: kills inside RestoreFromRemoteBackup while a local checkpoint of the same name exists; "
